@@ -8,6 +8,7 @@ result are taken on probe values (generated from each under the constant tapes, 
 edits).  (C) spec/Trace_Comb.tla decides the recorded observations.
 """
 from . import absmap as am
+from .common import safe_repr
 from . import core, mutants, valgen
 from .common import try_abs
 from .subcommon import ok_validate
@@ -40,7 +41,7 @@ def observe(op, a, b, c, ks, nprobes, rng):
     import d42
     from d42.utils import make_required
     ev = {"op": op, "exc": "", "rep": False, "res": [], "probes": [], "gens": [], "items": [], "iter": [],
-          "arepr": repr(a)[:200], "brepr": repr(b)[:200], "crepr": repr(c)[:200]}
+          "arepr": safe_repr(a)[:200], "brepr": safe_repr(b)[:200], "crepr": safe_repr(c)[:200]}
     res = None
     try:
         if op == "union":
@@ -59,7 +60,7 @@ def observe(op, a, b, c, ks, nprobes, rng):
         ev["exc"] = type(e).__name__
         return ev
     ev["rep"], ev["res"] = try_abs(am.a_schema, res)
-    ev["rrepr"] = repr(res)[:300]
+    ev["rrepr"] = safe_repr(res)[:300]
     parts = {"union": [a, b], "any3": [a, b, c], "add": [a, b], "make_required": [a], "alias": [a],
              "getitem": []}.get(op, [])
     seeds = gen_values(parts + [res])
